@@ -249,14 +249,14 @@ fn process_ay_block<H: Host>(
         }
     }
 
-    if emulator.settings.ay_enabled {
-        // chCurrentRegister
-        let ay_reg = block_data[1];
-        emulator.controller.mixer.ay.select_reg(ay_reg);
+    // The chip stays visible to the CPU through its ports even when the host does not mix its
+    // sound (`ay_enabled == false`), so its state is restored in either case
+    // chCurrentRegister
+    let ay_reg = block_data[1];
+    emulator.controller.mixer.ay.select_reg(ay_reg);
 
-        // chAyRegs
-        emulator.controller.mixer.ay.set_regs(&block_data[2..]);
-    }
+    // chAyRegs
+    emulator.controller.mixer.ay.set_regs(&block_data[2..]);
     Ok(())
 }
 
